@@ -129,6 +129,20 @@ def case_operator(case):
                       'held', group=grp, seconds=time.time()-t1))
     # reachability twin: the obligation is not vacuous (side conditions sat,
     # and some interior output is not identically zero)
+    if shape == (2, 3, 2) or shape == (3, 3, 3):
+        # keep the SMT-LIB2 text of two discharged obligations for the
+        # cvc5 cross-check (validation, not the deciding step)
+        c.sample_smt2 = []
+        k0 = list(ref.items())[:2]
+        for (d0, i0), w0 in k0:
+            c.valid(symx.qt(-r[d0][i0]) == symx.qt(w0),
+                    label=f"sample A e == oracle e{'xyz'[d0]}{list(i0)} "
+                          f"shape={shape}")
+        obs.append(ob("smt2 samples", 'held', group=grp, cls='sample',
+                      nontrivial=False, note='', cex=None,
+                      key=None))
+        obs[-1]['smt2'] = list(c.sample_smt2)
+        c.sample_smt2 = None
     (d, idx), want = next(iter(ref.items()))
     r3, _ = c.check(symx.qt(want) != 0, label='twin')
     obs.append(ob("twin: side conditions satisfiable and output nonzero",
@@ -587,7 +601,22 @@ def main(tier):
     jobs.sort(key=lambda j: -int(np.prod(j[1][0] if isinstance(
         j[1][0], tuple) else j[1])))
     obs = pmap(_dispatch, jobs)
+    samples = []
+    for o in obs:
+        if o.get('smt2'):
+            samples.extend(o.pop('smt2'))
+    obs = [o for o in obs if o['cls'] != 'sample']
     run.add(obs)
+    from .common import crosscheck_cvc5
+    t0 = time.time()
+    xc = crosscheck_cvc5(samples[:4])
+    run.validation.append(dict(
+        what="cvc5 1.0.3 second opinion on SMT-LIB2 exports of discharged "
+             "obligations (z3: unsat)", results=xc,
+        agree=all(x['cvc5'] == 'unsat' for x in xc),
+        seconds=round(time.time()-t0, 2)))
+    if any(x['cvc5'] == 'sat' for x in xc):
+        run.error("cvc5 disagrees with z3 on a discharged obligation")
 
     t0 = time.time()
     worst = jit_vs_source([(2, 2, 2), (3, 4, 2), (5, 4, 3)])
